@@ -144,5 +144,55 @@ CLAIMED.update({
         "technique": TECH,
     },
 })
+CLAIMED.update({
+    "C07": {
+        "text": "Proof (partial). Proved about the modelled pipeline for every state (Props/C07.v): the cycle law (each step advances the "
+                "cycle counter by exactly 1 + data-cache penalty x counted data misses + instruction-cache penalty x fetch misses, "
+                "faulting steps included), a reachable-shape invariant (stall register, skid registers, flag placement, no "
+                "instruction-bubble-instruction patterns), the flush law (control transfers resolved in MEM redirect the next fetch and "
+                "clear IF/ID/EX), the interlock law (a decode hazard gives exactly two stalled cycles in which nothing enters EX), ecall "
+                "drain laws, write-before-read in a cycle, retirement iff MEM latch occupied, and the n+4 law for straight-line "
+                "independent ALU programs (straightline_n_plus_4_partial: ALU classes only). NOT proved: that retire times follow the "
+                "schedule recurrence for arbitrary programs (needs the C02 control-path invariant). That clause is decided on everything "
+                "explored by comparing the implementation with the recurrence evaluated on its own single-cycle trace (exhaustive over "
+                "the hazard alphabet up to length 3/4, random programs), by the cycle law on the implementation with caches, and by "
+                "cycle-by-cycle correspondence of cycles/stalls/flushes with the model.",
+        "note": NOTE_COMMON + "retire_times_match_schedule is not a closed theorem; the Shape invariant is instantiated for runs without instruction cache.",
+        "technique": "Coq proofs of pipeline laws (cycle law, stall/flush laws, n+4 for ALU programs) + implementation vs schedule recurrence, exhaustive small scope + random",
+    },
+    "C08": {
+        "text": "Proof (partial). Proved about the modelled pipeline (Props/C08.v): with hazard detection off the decode stage never raises "
+                "a stall signal in any state, on reachable states only an ecall drain can stall, the flag never changes, and the operands "
+                "latched by decode are read from the register file after the same cycle's write-back (so they are exactly the writes "
+                "of instructions that have completed write-back). NOT proved: the refinement to the delayed-write-back interpreter and "
+                "the distance-3 corollary for whole programs. Those are decided on everything explored by comparing the implementation "
+                "(flag off) with a delayed-write-back reference interpreter (retire order and cycles, registers, memory, output), by "
+                "nop-padded programs against single-cycle mode, and by cycle-by-cycle correspondence with the model.",
+        "note": NOTE_COMMON + "nohaz_refines_delayedwb and distance3_refines_single are stated in DESIGN.md but not closed.",
+        "technique": "Coq proofs of the interlock-free laws + implementation vs delayed-write-back reference interpreter and padded programs",
+    },
+    "C13": {
+        "text": "Props/C13.v proves for the single-cycle, five-stage and TOY models, for ALL states: done is stable (step and run return the "
+                "identical state record), step's result is the negation of done afterwards, run equals iterating step (independent of "
+                "the fuel once finished), an empty program is done at once, and loading after any list of earlier successful or failed "
+                "loads equals loading directly (with the exact frame: what a load does not reset, hence why 'not started' is needed for "
+                "equality with a fresh simulation). Tied to the code by random interleavings of load/step/run compared call by call "
+                "incl. caches and latches; directly: extra calls after done, run vs step-until-done, reload vs fresh on the implementation.",
+        "note": NOTE_COMMON + "A failing load's partial effects on data memory are not modelled (the next load resets them); compared by outcome only.",
+        "technique": TECH,
+    },
+    "C16": {
+        "text": "Proof about the model only in the sense that matters: Props/C16.v proves the erasure theorem (removing inspection calls "
+                "changes no state and no step result; every inspection result is the getter applied to the state reached by the steps "
+                "before it), that each modelled view depends only on its named components, and that the one stateful display path (the "
+                "single-cycle uncounted re-read of a loaded address) is neutral. Purity of the PYTHON getters cannot be proved in Coq; "
+                "it is decided by running the implementation with random multisets of ALL zero-argument inspection functions between "
+                "steps against a run without them (state, cache directories, replacement state, counters, latches after every step; all "
+                "inspection results at the end) and against the model's run of the erased sequence, for RISC-V in both modes with "
+                "random cache configurations and for TOY.",
+        "note": NOTE_COMMON + "SVG payloads and the metrics text are compared implementation-vs-implementation; wall-clock lines dropped.",
+        "technique": "Coq erasure theorem on the model + differential execution with/without inspection calls on the implementation",
+    },
+})
 _PENDING = "check not built yet (model/theorems under construction); see DESIGN.md section 9"
 NOT_APPLICABLE = {f"C{i:02d}": _PENDING for i in range(1, 21) if f"C{i:02d}" not in CLAIMED}
